@@ -784,6 +784,48 @@ func c18Judge(cfg *c18Cfg, rd *c18Round, ref *c18Ref, calls []c18Call, cons *c18
 	for t := 0; t < 2; t++ {
 		head[t] = ref.headroom(t)
 	}
+	// headNow: the headroom a tier can still draw on. The headroom of a node that is underused in BOTH tiers is one
+	// physical amount: what the node tier already moved there is gone for the prod tier too, so the prod tier's share of
+	// the both-low nodes is at most their node-level headroom and at most what the node tier's pool has left (never
+	// negative here: the reference stays at or above the code's own figure, which may go below zero after an overshoot).
+	// Seed C18-7 skipped that cap when the node pass had left exactly nothing.
+	headNow := func(t int) c18Vec {
+		if t == c18TierNode || !cfg.tierConfigured(c18TierNode) {
+			return head[t]
+		}
+		var prodOnly, prodBoth, nodeBoth c18Vec
+		for i := 0; i < n; i++ {
+			if !ref.under[c18TierProd][i] {
+				continue
+			}
+			for r := 0; r < 2; r++ {
+				h := ref.high[c18TierProd][i][r].hi - ref.use[c18TierProd][i][r]
+				if ref.under[c18TierNode][i] {
+					prodBoth[r] += h
+					nodeBoth[r] += ref.high[c18TierNode][i][r].hi - ref.use[c18TierNode][i][r]
+				} else {
+					prodOnly[r] += h
+				}
+			}
+		}
+		var out c18Vec
+		for r := 0; r < 2; r++ {
+			share := prodBoth[r]
+			if ref.cfgd[c18TierNode][r] {
+				if nodeBoth[r] < share {
+					share = nodeBoth[r]
+				}
+				if left := head[c18TierNode][r] - pool[c18TierNode][r]; left < share {
+					share = left
+				}
+				if share < 0 {
+					share = 0
+				}
+			}
+			out[r] = prodOnly[r] + share
+		}
+		return out
+	}
 	evictedFrom := make([]int, n)
 	stillOver := func(t, node int) (bool, string) {
 		for r := 0; r < 2; r++ {
@@ -827,9 +869,10 @@ func c18Judge(cfg *c18Cfg, rd *c18Round, ref *c18Ref, calls []c18Call, cons *c18
 			if !otherUnder(t, c.Node) {
 				f("no-other-node-under-low", "no other node is under the low thresholds (under=%v)", ref.under[t])
 			}
+			hn := headNow(t)
 			for r := 0; r < 2; r++ {
-				if ref.cfgd[t][r] && head[t][r]-pool[t][r] <= 0 {
-					f("headroom-used-up", "headroom of the underused nodes in %s: %d - already moved %d <= 0", c18ResNames[r], head[t][r], pool[t][r])
+				if ref.cfgd[t][r] && hn[r]-pool[t][r] <= 0 {
+					f("headroom-used-up", "headroom of the underused nodes in %s: %d (of %d before the other tier drew on the nodes underused in both) - already moved %d <= 0", c18ResNames[r], hn[r], head[t][r], pool[t][r])
 					break
 				}
 			}
